@@ -144,6 +144,18 @@ fn exec(desc: &Value, tr: &mut Tracer) -> anyhow::Result<()> {
                 let r = p.extend(&net2, &route);
                 let (pts, exact) = pts_json(&speed_points_of(&p, &["speed_points"]), os, vs);
                 tr.emit(json!({"ev":"Profile","via":"bytype","ok":r.is_ok(),"pts":pts,"exact":exact}));
+                // path 2d: the library's own selection of the train type's sets
+                // (Network::set_speed_set_for_train_type), then the single-set layout again
+                let mut net3 = net2.clone();
+                match net3.set_speed_set_for_train_type(TrainType::Freight) {
+                    Ok(()) => {
+                        let mut p = PathTpc::new(tp);
+                        let r = p.extend(&net3, &route);
+                        let (pts, exact) = pts_json(&speed_points_of(&p, &["speed_points"]), os, vs);
+                        tr.emit(json!({"ev":"Profile","via":"typeselected","ok":r.is_ok(),"pts":pts,"exact":exact}));
+                    }
+                    Err(e) => tr.emit(json!({"ev":"Profile","via":"typeselected","ok":false,"pts":[],"exact":true,"msg":errtxt(&e)})),
+                }
             }
             Err(e) => tr.emit(json!({"ev":"Profile","via":"bytype","ok":false,"pts":[],"exact":true,"msg":errtxt(&e)})),
         }
